@@ -145,6 +145,10 @@ def type_exprs(tier):
         out += [["Option", [["G", [x], [x], []]]], ["Tuple", [BOOL, ["Either", [["G", [x], [], []]], [QB]]]], ["G", [["Option", [x]]], [["Tuple", [x, BOOL]]], []],
                 ["Poly", [["TP", A]], ["G", [["V", 0, A], x], [x], []]], ["Opaque", "z.unknown", "Tz", C, [["TA", x], ["SeqA", [["TA", x], ["NA", 1]]]]],
                 ["Opaque", "x.ext", "Tb", T.ref_bound(["Tuple", [x]]), [["TA", ["Tuple", [x]]]]]]
+    # sequences nested in sequences (a List(List(Type)) parameter), inside opaque and unknown types
+    for x in ops_[:4]:
+        out += [["Opaque", "z.unknown", "Tz", C, [["SeqA", [["SeqA", [["TA", x]]], ["SeqA", []]]]]],
+                ["Opaque", "z.unknown", "Tz", C, [["SeqA", [["SeqA", [["SeqA", [["TA", x], ["NA", 2]]]]]]]]]]
     if tier == "thorough":
         for y in l1[:18]:
             out += wrap(y)[:4]
@@ -268,6 +272,16 @@ def hugr_docs():
         n3 = d.add(custom("z.unknown", "oz", [tb], [tb], rq("z.unknown"), [tys.SequenceArg([tb.type_arg()])])(n2))
         d.set_outputs(n3)
         docs.append((f"oc-ob-oz:{reqs_style}", d.hugr.to_json(), [("y.ext", "oc"), ("x.ext", "ob"), ("z.unknown", "oz")]))
+    # the same polymorphic op at two different instantiations, one of them in a nested region
+    d = Dfg(tc, ta)
+    c, a = d.inputs()
+    tb_c, tb_a = T.build_type(TB_(TC_)), T.build_type(TB_(TA_))
+    n1 = d.add(custom("x.ext", "ob", [tc], [tb_c], ["x.ext"], [tc.type_arg()])(c))
+    with d.add_nested(a) as inner:
+        n2 = inner.add(custom("x.ext", "ob", [ta], [tb_a], ["x.ext"], [ta.type_arg()])(inner.inputs()[0]))
+        inner.set_outputs(n2)
+    d.set_outputs(n1, *inner)
+    docs.append(("ob-twice", d.hugr.to_json(), [("x.ext", "ob"), ("x.ext", "ob")]))
     # an op whose name the extension may lack
     d = Dfg(ta)
     n = d.add(custom("x.ext", "omissing", [ta], [], ["x.ext"])(d.inputs()[0]))
